@@ -5,10 +5,10 @@ C01, part 9: one public operation of the editor (`Editor.apply`): returns and re
 namespace Chewing.C01
 open Chewing Chewing.C04 Chewing.C05 Chewing.C06
 
-variable {D L : Type} {env : Env D L} {G : D → Prop}
+variable {D L : Type} {env : Env D L} {G : D → Prop} {w : Prop}
 
-theorem select_tail_ok (hE : EnvOK env G) {sh : Shared D L} {st : St} (h : ShInv env G sh) (hs : StInv env sh st) :
-    OkAnd (fun x => EditorInv env G x.1)
+theorem select_tail_ok (hE : EnvOK env G) {sh : Shared D L} {st : St} (h : ShInv env G w sh) (hs : StInv env w sh st) :
+    OkAnd (fun x => EditorInv env G w x.1)
       (match (if st == .entering && sh.last == .absorb then Shared.tryAutoCommit env sh else .ok sh) with
         | .ok sh => (.ok ({ shared := sh, state := st }, sh.last != .bell) : Outcome (Editor D L × Bool))
         | .panic p => .panic p
@@ -25,11 +25,11 @@ theorem select_tail_ok (hE : EnvOK env G) {sh : Shared D L} {st : St} (h : ShInv
   · rw [if_neg hc]
     exact .ok ⟨h, hs⟩
 
-theorem select_api_ok (hE : EnvOK env G) {e : Editor D L} (hi : EditorInv env G e) (n : Nat) : OkAnd (fun x => EditorInv env G x.1) (e.select env n) := by
+theorem select_api_ok (hE : EnvOK env G) {e : Editor D L} (hi : EditorInv env G w e) (n : Nat) : OkAnd (fun x => EditorInv env G w x.1) (e.select env n) := by
   unfold Editor.select
   split
   · next s hst =>
-    have hs : SelInv env e.shared s := by have := hi.st; rw [hst] at this; exact this
+    have hs : SelInv env w e.shared s := by have := hi.st; rw [hst] at this; exact this
     obtain ⟨⟨s', sh', t⟩, hq, h1, h2, h3⟩ := select_ok hE hi.sh hs n
     rw [hq]
     cases t with
@@ -43,12 +43,12 @@ theorem select_api_ok (hE : EnvOK env G) {e : Editor D L} (hi : EditorInv env G 
 
 /-- `Editor::revalidate_selecting` (F32 repair, the last step of the option / layout / dictionary calls):
     under the invariant `total_page()` answers, and clamping the page / closing an empty list keeps the invariant -/
-theorem revalidate_ok (hE : EnvOK env G) {e : Editor D L} (hi : EditorInv env G e) :
-    OkAnd (EditorInv env G) (e.revalidate env) := by
+theorem revalidate_ok (hE : EnvOK env G) {e : Editor D L} (hi : EditorInv env G w e) :
+    OkAnd (EditorInv env G w) (e.revalidate env) := by
   unfold Editor.revalidate
   split
   · next s hst =>
-    have hs : SelInv env e.shared s := by have := hi.st; rw [hst] at this; exact this
+    have hs : SelInv env w e.shared s := by have := hi.st; rw [hst] at this; exact this
     obtain ⟨tp, hq, _⟩ := totalPage_ok hE hi.sh hs
     rw [hq]
     dsimp only
@@ -60,11 +60,11 @@ theorem revalidate_ok (hE : EnvOK env G) {e : Editor D L} (hi : EditorInv env G 
   · exact .ok hi
 
 /-- **one operation**: it returns (no panic, no exhausted fuel) and the invariant holds again -/
-theorem apply_ok (hE : EnvOK env G) {e : Editor D L} (hi : EditorInv env G e) (op : Op L) (hv : OpValid op)
-    (hk : ¬ Known env e op) : OkAnd (EditorInv env G) (e.apply env op) := by
+theorem apply_ok (hE : EnvOK env G) {e : Editor D L} (hi : EditorInv env G w e) (op : Op L) (hv : OpValid op)
+    (hk : w → ¬ Known env e op) : OkAnd (EditorInv env G w) (e.apply env op) := by
   cases op with
   | key ev =>
-    have hpk : OkAnd (fun x => EditorInv env G x.1) (e.processKey env ev) := by
+    have hpk : OkAnd (fun x => EditorInv env G w x.1) (e.processKey env ev) := by
       cases hst : e.state with
       | selecting s =>
         exact processKey_selecting_of hE hst ev (selectingNext_ok hE (preamble_inv hi.sh) (selInv_preamble hi hst) ev)
@@ -88,44 +88,45 @@ theorem apply_ok (hE : EnvOK env G) {e : Editor D L} (hi : EditorInv env G e) (o
   | clearSyl =>
     exact .ok (leaveIfEmpty_inv ⟨hi.sh.congr rfl rfl rfl rfl rfl rfl, hi.st.same rfl rfl⟩)
   | setOptions o =>
-    simp only [Known, Classical.not_not] at hk
+    have hk : w → _ := fun hw => Classical.not_not.mp (hk hw)
     refine revalidate_ok hE (leaveIfEmpty_inv ?_)
     have hsh : ∀ sh1 : Shared D L, sh1.dict = e.shared.dict → sh1.com = e.shared.com → sh1.engine = e.shared.engine →
-        sh1.symSel = e.shared.symSel → ShInv env G { sh1 with options := o } := by
+        sh1.symSel = e.shared.symSel → ShInv env G w { sh1 with options := o } := by
       intro sh1 hd hcm he hsy
       refine ⟨hd ▸ hi.sh.good, hcm ▸ hi.sh.ced, ?_, ?_, hv, hsy ▸ hi.sh.symOK⟩
-      · intro c hcc
+      · intro hw c hcc
         have hcc' : Sym.syl c ∈ e.shared.com.inner.symbols := by
           have : sh1.com.inner.symbols = e.shared.com.inner.symbols := by rw [hcm]
           exact this ▸ hcc
         show env.hasPhrase sh1.dict [c] (engStrategy sh1.engine) = true ∧ env.hasPhrase sh1.dict [c] o.lookupStrategy = true
         rw [hd, he]
-        exact ⟨(hi.sh.word c hcc').1, hk.1 c hcc'⟩
-      · show o.lookupStrategy = .fuzzyPartialPrefix → engStrategy sh1.engine = .fuzzyPartialPrefix
-        rw [he]; exact hk.2
+        exact ⟨(hi.sh.word hw c hcc').1, (hk hw).1 c hcc'⟩
+      · intro hw
+        show o.lookupStrategy = .fuzzyPartialPrefix → engStrategy sh1.engine = .fuzzyPartialPrefix
+        rw [he]; exact (hk hw).2
     by_cases hlm : (e.shared.options.languageMode != o.languageMode) = true
     · exact ⟨by rw [if_pos hlm]; exact hsh _ rfl rfl rfl rfl, by rw [if_pos hlm]; exact hi.st.same rfl rfl⟩
     · exact ⟨by rw [if_neg hlm]; exact hsh _ rfl rfl rfl rfl, by rw [if_neg hlm]; exact hi.st.same rfl rfl⟩
   | setLayout l =>
     exact revalidate_ok hE (leaveIfEmpty_inv ⟨hi.sh.congr rfl rfl rfl rfl rfl rfl, hi.st.same rfl rfl⟩)
   | setEngine k =>
-    simp only [Known, Classical.not_not] at hk
-    refine .ok ⟨⟨hi.sh.good, hi.sh.ced, ?_, hk.2, hi.sh.perPage, hi.sh.symOK⟩, hi.st.same rfl rfl⟩
-    intro c hcc
-    exact ⟨hk.1 c hcc, (hi.sh.word c hcc).2⟩
+    have hk : w → _ := fun hw => Classical.not_not.mp (hk hw)
+    refine .ok ⟨⟨hi.sh.good, hi.sh.ced, ?_, (fun hw => (hk hw).2), hi.sh.perPage, hi.sh.symOK⟩, hi.st.same rfl rfl⟩
+    intro hw c hcc
+    exact ⟨(hk hw).1 c hcc, (hi.sh.word hw c hcc).2⟩
   | learn k p =>
     obtain ⟨⟨sh, b⟩, hq, h1, hkp⟩ := learnPhrase_ok hE hi.sh k p
     simp only [Editor.apply]
     rw [hq]
     exact revalidate_ok hE ⟨h1, hi.st.congr (by rw [hkp.com]) (by rw [hkp.com]) hkp.mono⟩
   | unlearn k p =>
-    simp only [Known, Classical.not_not] at hk
+    have hk : w → _ := fun hw => Classical.not_not.mp (hk hw)
     refine revalidate_ok hE ⟨⟨hE.remove_good _ _ _ hi.sh.good, hi.sh.ced, ?_, hi.sh.coupled, hi.sh.perPage, hi.sh.symOK⟩, ?_⟩
-    · intro c hcc
-      exact ⟨hk.1 c hcc, hk.2.1 c hcc⟩
-    · exact stInv_unlearn hi hk.2.2 rfl rfl
-  | jump w =>
-    obtain ⟨⟨e', b⟩, hq, h1⟩ := jump_api_ok hi w
+    · intro hw c hcc
+      exact ⟨(hk hw).1 c hcc, (hk hw).2.1 c hcc⟩
+    · exact stInv_unlearn hi (fun hw => (hk hw).2.2) rfl rfl
+  | jump which =>
+    obtain ⟨⟨e', b⟩, hq, h1⟩ := jump_api_ok hi which
     simp only [Editor.apply]; rw [hq]; exact .ok h1
 
 end Chewing.C01
